@@ -1,2 +1,216 @@
--- driver stub for C20 (replaced when the model is built)
-def main : IO Unit := pure ()
+import PyramidModel.Prelude
+import PyramidModel.Introspect
+import PyramidModel.Actions
+import PyramidModel.Lemmas.IntrospectSpec
+/-! Driver for C20: one JSON case per line.
+
+`{"op":"ops","seq":[op…]}` — an operation sequence on a fresh `Introspector`:
+   ["add",c,d,v,info] ["get",c,d] ["peek",c,d] ["get_category",c] ["categories"] ["categorized"]
+   ["remove",c,d] ["relate",[[c,d],…]] ["unrelate",[[c,d],…]] ["related",c,d]
+   → {"results":[…]}: null / entry [d,v,info] / lists / {"err":"KeyError"|"ValueError"} (state unchanged)
+
+`{"op":"commit","base":STATE,"flag":b,"forwards":b,"tree":[STMT…]}` — declare the statement tree on a
+   configurator whose `introspection` is `flag`, resolve conflicts with the C04 model (`Pyr.Actions.run`, no
+   action adds actions), register the introspectables of the executed actions in execution order.
+   STMT = {"act":{"id":n,"disc":null|n,"order":i,"intrs":[{"obj":[c,d,v],"rels":[[rel,c,d],…]}]}}
+        | {"incl":node,"set":null|b,"body":[STMT…]}
+   → {"outcome":…, "executed":[ids], "pending":[[id,[path],nIntrs]…], "reg":"ok"|"KeyError"|…, "state":VIEW}
+   VIEW = [[c,[[d,v,info,[[c,d,v]…]]…]]…]  (= `categorized()`)
+
+`{"op":"spec"}` — the specification table of Lemmas/IntrospectSpec.lean as JSON (for the dynamic oracle's
+   cross-check).
+-/
+open Pyr Pyr.Introspect Lean
+
+def objJ (o : Obj) : Json := toJson [o.cat, o.discr, o.val]
+def entryJ (e : Entry) : Json := toJson [e.obj.discr, e.obj.val, e.info]
+def errJ : Err → Json
+  | .keyError => Json.mkObj [("err", "KeyError")]
+  | .valueError => Json.mkObj [("err", "ValueError")]
+
+def catViewJ (l : List (Entry × List Obj)) : Json :=
+  Json.arr (l.map fun p => Json.arr #[toJson p.1.obj.discr, toJson p.1.obj.val, toJson p.1.info,
+                                       Json.arr (p.2.map objJ).toArray]).toArray
+
+def viewJ (S : IState) : Json :=
+  Json.arr ((categorized S).map fun p => Json.arr #[toJson p.1, catViewJ p.2]).toArray
+
+def natsOf (j : Json) : Except String (List Nat) := fromJson? j
+
+def pairsOfJ (j : Json) : Except String (List (Nat × Nat)) := do
+  let xs : List (List Nat) ← fromJson? j
+  xs.mapM fun x => match x with
+    | [c, d] => pure (c, d)
+    | _ => throw "bad pair"
+
+def runOp (S : IState) (j : Json) : Except String (IState × Json) := do
+  match j with
+  | .arr a =>
+    let name ← match (a[0]? : Option Json) with
+      | some (Json.str s) => pure s
+      | _ => throw "bad op"
+    let arg (i : Nat) : Except String Nat := match (a[i]? : Option Json) with
+      | some v => fromJson? v
+      | none => throw "missing arg"
+    match name with
+    | "add" => do
+      let S' := add S ⟨← arg 1, ← arg 2, ← arg 3⟩ (← arg 4)
+      pure (S', Json.null)
+    | "get" => do
+      let r := get S (← arg 1) (← arg 2)
+      pure (r.2, match r.1 with | some e => entryJ e | none => Json.null)
+    | "peek" => do
+      pure (S, match peek S (← arg 1) (← arg 2) with | some e => entryJ e | none => Json.null)
+    | "get_category" => do
+      pure (S, match getCategory S (← arg 1) with | some l => catViewJ l | none => Json.null)
+    | "categories" => pure (S, toJson (categories S))
+    | "categorized" => pure (S, viewJ S)
+    | "remove" => do
+      match remove S (← arg 1) (← arg 2) with
+      | .ok S' => pure (S', Json.null)
+      | .error e => pure (S, errJ e)
+    | "relate" | "unrelate" => do
+      let ks ← match (a[1]? : Option Json) with
+        | some v => pairsOfJ v
+        | none => throw "missing pairs"
+      match relate S (name == "relate") ks with
+      | .ok S' => pure (S', Json.null)
+      | .error e => pure (S, errJ e)
+    | "related" => do
+      match related S (← arg 1) (← arg 2) with
+      | .ok l => pure (S, Json.arr (l.map objJ).toArray)
+      | .error e => pure (S, errJ e)
+    | _ => throw s!"unknown op {name}"
+  | _ => throw "bad op"
+
+def runOps (S : IState) : List Json → Except String (List Json)
+  | [] => pure []
+  | j :: r => do
+    let (S', out) ← runOp S j
+    let rest ← runOps S' r
+    pure (out :: rest)
+
+def parseObj (j : Json) : Except String Obj := do
+  let l ← natsOf j
+  match l with
+  | [c, d, v] => pure ⟨c, d, v⟩
+  | _ => throw "bad obj"
+
+def parseState (j : Json) : Except String IState := do
+  let cats : List (Nat × List (List Nat)) ← getAs j "cats"
+  let cats' ← cats.mapM fun (c, es) => do
+    let es' ← es.mapM fun e => match e with
+      | [d, v, info, order] => pure (⟨⟨c, d, v⟩, info, order⟩ : Entry)
+      | _ => throw "bad entry"
+    pure (c, es')
+  let refsJ ← getField j "refs"
+  let refs ← match refsJ with
+    | .arr xs => xs.toList.mapM fun x => match x with
+      | .arr #[k, l] => do
+        let ko ← parseObj k
+        let ls ← match l with
+          | .arr ys => ys.toList.mapM parseObj
+          | _ => throw "bad ref list"
+        pure (ko, ls)
+      | _ => throw "bad ref"
+    | _ => throw "bad refs"
+  let counter : Nat ← getAs j "counter"
+  pure { cats := cats', refs := refs, counter := counter }
+
+def parseDecl (j : Json) : Except String Decl := do
+  let o ← parseObj (← getField j "obj")
+  let rs : List (List Nat) ← getAs j "rels"
+  let rels ← rs.mapM fun r => match r with
+    | [b, c, d] => pure (⟨b != 0, c, d⟩ : Rel)
+    | _ => throw "bad rel"
+  pure ⟨o, rels⟩
+
+partial def parseStmt (j : Json) : Except String Stmt := do
+  match j.getObjVal? "act" with
+  | .ok a =>
+    let id : Nat ← getAs a "id"
+    let disc : Option Nat ← getAs a "disc"
+    let order : Int ← getAs a "order"
+    let ij ← getField a "intrs"
+    let intrs ← match ij with
+      | .arr xs => xs.toList.mapM parseDecl
+      | _ => throw "bad intrs"
+    pure (.act ⟨id, disc, order, intrs⟩)
+  | .error _ =>
+    let node : Nat ← getAs j "incl"
+    let set : Option Bool ← getAs j "set"
+    let bj ← getField j "body"
+    let body ← match bj with
+      | .arr xs => xs.toList.mapM parseStmt
+      | _ => throw "bad body"
+    pure (.incl node set body)
+
+def outcomeJ : Pyr.Actions.Outcome → Json
+  | .ok => "ok"
+  | .conflict ks => Json.mkObj [("conflict", toJson ks)]
+  | .regress o m => Json.mkObj [("regress", toJson [o, m])]
+  | .fuel => "fuel"
+
+def strsJ (l : List String) : Json := toJson l
+
+def gdefJ (d : GDef) : Json := Json.arr #[d.name, d.rhs, d.scope, strsJ d.guards]
+
+def shapeJ : Shape → Json
+  | .param p => Json.arr #["param", p]
+  | .resolved p => Json.arr #["resolved", p]
+  | .const c => Json.arr #["const", c]
+  | .derived e defs => Json.arr #["derived", e, Json.arr (defs.map gdefJ).toArray]
+  | .computed e => Json.arr #["computed", e]
+  | .extra p => Json.arr #["extra", p]
+
+def specJ : Json :=
+  Json.arr (specDirectives.map fun s => Json.mkObj [
+    ("file", s.file), ("name", s.name), ("params", strsJ s.params),
+    ("docCategory", Json.arr (s.docCategory.map fun p => Json.arr #[p.1, p.2]).toArray),
+    ("intros", Json.arr (s.intros.map fun i => Json.mkObj [
+      ("var", i.var), ("category", i.category), ("discr", i.discr), ("title", i.title), ("typeName", i.typeName),
+      ("scope", i.scope), ("guards", strsJ i.guards)]).toArray),
+    ("keys", Json.arr (s.keys.map fun k => Json.mkObj [
+      ("var", k.var), ("key", k.key), ("shape", shapeJ k.shape), ("scope", k.scope), ("guards", strsJ k.guards)]).toArray),
+    ("rels", Json.arr (s.rels.map fun r => Json.mkObj [
+      ("var", r.var), ("rel", toJson r.rel), ("cat", r.cat), ("discr", r.discr), ("scope", r.scope), ("guards", strsJ r.guards)]).toArray),
+    ("acts", Json.arr (s.acts.map fun a => Json.mkObj [
+      ("discr", a.discr), ("order", a.order), ("guards", strsJ a.guards),
+      ("intrs", (match a.intrs with
+        | some vs => Json.arr (vs.map fun v => Json.arr #[v.1, strsJ v.2]).toArray
+        | none => Json.null))]).toArray)]).toArray
+
+def main : IO Unit := jsonDriver fun j => do
+  let op : String ← getAs j "op"
+  match op with
+  | "ops" =>
+    let sj ← getField j "seq"
+    let seq ← match sj with
+      | .arr xs => pure xs.toList
+      | _ => throw "bad seq"
+    let rs ← runOps IState.empty seq
+    return Json.mkObj [("results", Json.arr rs.toArray)]
+  | "commit" =>
+    let base ← parseState (← getField j "base")
+    let flag : Bool ← getAs j "flag"
+    let forwards : Bool ← getAs j "forwards"
+    let tj ← getField j "tree"
+    let tree ← match tj with
+      | .arr xs => xs.toList.mapM parseStmt
+      | _ => throw "bad tree"
+    let ps := flattenL forwards flag [] tree
+    let top : List Pyr.Actions.Act := ps.map fun p =>
+      { id := p.id, disc := (match p.disc with | some d => .val d | none => .none), order := p.order, path := p.path }
+    let (oc, executed) := Pyr.Actions.run Pyr.Actions.noKids (2 * ps.length + 4) top
+    let pendJ := Json.arr (ps.map fun p => Json.arr #[toJson p.id, toJson p.path, toJson p.intrs.length]).toArray
+    match oc with
+    | .ok =>
+      match registerAll (declsOf ps) executed base with
+      | .ok S => return Json.mkObj [("outcome", "ok"), ("executed", toJson executed), ("pending", pendJ),
+                                    ("reg", "ok"), ("state", viewJ S)]
+      | .error e => return Json.mkObj [("outcome", "ok"), ("executed", toJson executed), ("pending", pendJ),
+                                       ("reg", errJ e), ("state", Json.null)]
+    | oc => return Json.mkObj [("outcome", outcomeJ oc), ("executed", toJson executed), ("pending", pendJ),
+                               ("reg", Json.null), ("state", Json.null)]
+  | "spec" => return specJ
+  | _ => throw s!"unknown op {op}"
